@@ -2,8 +2,7 @@
    accepts exactly the well-formed encodings, and neither routine leaves its input or the output
    space its contract names. *)
 From Coq Require Import Arith NArith ZArith List Lia Bool.
-From LCP Require Import Base.CheckedMem Base.Sweep Util.EndianMem Util.EndianMemProofs Util.B64
-  Gen.Repo_codec.
+From LCP Require Import Base.CheckedMem Base.Sweep Util.EndianMem Util.EndianMemProofs Util.B64 Gen.Repo_codec.
 Import ListNotations.
 Local Open Scope N_scope.
 Ltac Zify.zify_post_hook ::= Z.to_euclidean_division_equations.
@@ -1070,3 +1069,12 @@ Proof. repeat split; vm_compute; reflexivity. Qed.
 Example b64_example_rfc_vector :       (* RFC 4648 section 10: BASE64("foobar") = "Zm9vYmFy" *)
   b64_spec [102; 111; 111; 98; 97; 114] = [90; 109; 57; 118; 89; 109; 70; 121].
 Proof. vm_compute. reflexivity. Qed.
+
+(* C15: the encoder stays inside its input and inside the b64len(len)+1 bytes of its output *)
+Theorem b64encode_no_fault bs out :
+  bytes_ok bs -> length out = S (b64len (length bs)) ->
+  exists r, b64encode_m b64chars bs out (length bs) = Ok r /\ length r = length out.
+Proof.
+  intros Hb Ho. exists (b64_spec bs ++ [0]). split; [apply b64encode_eq_rfc4648; assumption|].
+  destruct (enc_facts_all bs Hb) as [_ L _ _ _]. rewrite app_length, L, Ho. cbn [length]. lia.
+Qed.
